@@ -242,6 +242,22 @@ def _tm_histories(sp, tmm, check_pus_crc, Service17Tm, c, stamp, src, want, wo, 
     tc_hdr = sp.SpacePacketHeader(packet_type=sp.PacketType.TC, apid=c["apid"], seq_count=c["seq"], data_len=len(want) - 7, sec_header_flag=True, ccsds_version=c["ver"])
     sec = tmm.PusTmSecondaryHeader(service=c["service"], subservice=c["subservice"], timestamp=stamp, message_counter=c["msg_counter"], dest_id=c["dest_id"], spacecraft_time_ref=c["time_ref"])
     _er(devs, "hist.composed_from_tc_header", lambda: tmm.PusTm.from_composite_fields(tc_hdr, sec, src), accept=(ValueError,))
+    # a caller keeps the packet's header objects, replaces the source data through the setter, and goes on using the objects it holds
+    oh = build_tm(tmm, c, stamp, src)
+    held_hdr, held_sec = oh.sp_header, oh.pus_tm_sec_header
+    oh.tm_data = src + b"\x99"
+    held_hdr.seq_count = (c["seq"] + 1) % 16384
+    held_sec.message_counter = (c["msg_counter"] + 1) % 65536
+    eq(devs, "hist.header_objects_held_across_data_setter.pack", bytes(oh.pack()),
+       RP.pus_tm(c["apid"], (c["seq"] + 1) % 16384, c["service"], c["subservice"], (c["msg_counter"] + 1) % 65536, c["dest_id"], c["time_ref"], stamp, src + b"\x99", ver=c["ver"]))
+    # the timestamp replaced by one of another length through the secondary header, then the documented setter that recomputes the length
+    ot = build_tm(tmm, c, stamp, src)
+    new_stamp = (stamp + b"\x5a\x5b")[: max(0, len(stamp) - 1)] if len(stamp) % 2 else stamp + b"\x5a\x5b"
+    ot.pus_tm_sec_header.timestamp = new_stamp
+    ot.tm_data = src
+    eq(devs, "hist.timestamp_resized_through_header_then_data_setter.pack", bytes(ot.pack()),
+       RP.pus_tm(c["apid"], c["seq"], c["service"], c["subservice"], c["msg_counter"], c["dest_id"], c["time_ref"], new_stamp, src, ver=c["ver"]))
+    eq(devs, "hist.timestamp_resized_through_header_then_data_setter.packet_len", ot.packet_len, 6 + 7 + len(new_stamp) + len(src) + 2)
     # printing is pure: str() / repr() of a never-packed packet change nothing about what is packed after a later field change,
     # also with recalc_crc=False (no trailer has been computed yet, so one is computed)
     for printed in (False, True):
